@@ -470,3 +470,34 @@ MUTANTS += [
     dict(prop="C16", name="filtered-write-uses-all-data", file=BAM,
          old="        self._data = RaggedArray(\n            self._data, RaggedView2(self._new_lines, lens)).ravel()", new="        self._data = RaggedArray(\n            self._data, RaggedView2(np.sort(self._new_lines), lens[np.argsort(self._new_lines)])).ravel()"),
 ]
+
+RED = "bionumpy/streams/reductions.py"
+GBF = "bionumpy/streams/groupby_func.py"
+CE = "bionumpy/streams/chunk_entries.py"
+CG = "bionumpy/computation_graph.py"
+
+MUTANTS += [
+    # ---- C11 ----------------------------------------------------------------------------
+    dict(prop="C11", name="bincount-reduce-drops-longer", file=RED,
+         old="    bincount_b[:bincount_a.size] += bincount_a\n    return bincount_b", new="    bincount_a += bincount_b[:bincount_a.size]\n    return bincount_a"),
+    dict(prop="C11", name="mean-of-chunk-counts", file=RED,
+         old="    return np.append(np.sum(array, axis=axis), n)", new="    return np.append(np.sum(array, axis=axis), max(n, 2))"),
+    dict(prop="C11", name="histogram-reduce-skips-second", file=RED,
+         old="    hist = sum((h[0] for h in histograms))+hist", new="    next(histograms, None)\n    hist = sum((h[0] for h in histograms))+hist"),
+    dict(prop="C11", name="groupby-equal-keys-not-joined", file=GBF,
+         old="    double_grouped = itertools.groupby(itertools.chain.from_iterable(grouped_generator), lambda x: x[0])",
+         new="    double_grouped = ((k, [(k, g)]) for k, g in itertools.chain.from_iterable(grouped_generator))"),
+    dict(prop="C11", name="groupby-fast-path-first-last", file=GBF,
+         old="        return grouped_stream(((key(keys[start]), data[start:]) for start in [0]), column)",
+         new="        return grouped_stream(((key(keys[start]), data[start:start + max(1, len(data) - (len(data) > 4))]) for start in [0]), column)"),
+    dict(prop="C11", name="chunk-entries-one-per-input", file=CE,
+         old="            while len(total) >= n_entries:\n                yield total[:n_entries]\n                total = total[n_entries:]",
+         new="            if len(total) >= n_entries:\n                yield total[:n_entries]\n                total = total[n_entries:]"),
+    dict(prop="C11", name="graph-mean-counts", file=CG,
+         old="            sum_and_n_a[1]+sum_and_n_b[1])", new="            np.maximum(sum_and_n_a[1], sum_and_n_b[1]) + np.minimum(sum_and_n_a[1], sum_and_n_b[1]) * (np.ndim(sum_and_n_a[1]) == 0))"),
+    dict(prop="C11", name="graph-histogram-keeps-first", file=CG,
+         old="    return ((histogram_a[0]+histogram_b[0]), histogram_a[1])", new="    return (np.maximum(histogram_a[0], histogram_b[0]), histogram_a[1])"),
+    dict(prop="C11", name="trailing-empty-chromosomes-dropped (seeded C11-a)", file=GC,
+         old="            else:\n                logger.debug(f'Yielding empty data for {name}')\n                yield dataclass.empty()",
+         new="            else:\n                logger.debug(f'Yielding empty data for {name}')\n                if next_name is None:\n                    return\n                yield dataclass.empty()"),
+]
